@@ -2,8 +2,8 @@ package main
 
 // C11 — histories: several loads on ONE openapi3.Loader (a located load, then LoadFromData, the same file twice, a
 // document that refers to one loaded before, …).  A history case has g["steps"] = [{"entry","root":<loc of a file of
-// g["files"]>,"allowed"}…]; all steps share the file universe g["files"].  Each load is judged against its own root;
-// the documents loaded by earlier steps count as already loaded for the later ones (Input.known in the model).
+// g["files"]>,"allowed"}…]; all steps share the file universe g["files"].  Each load is judged against its own root and
+// the documents read in THAT load: since c555d93 the loader keeps nothing from one load to the next.
 
 import (
 	"bytes"
@@ -152,7 +152,7 @@ func cmpC11History(c hx.Case, im map[string]any, model map[string]any, spec map[
 		}
 		if ok, why := c11SpecHoldsKnown(ilog, ss, toStrs(ss["known"])); !ok && v.IS {
 			v.IS = false
-			v.Detail = fmt.Sprintf("load %d of the history: %s (reads %v; loaded before by this loader: %v)", i+1, why, ilog, toStrs(ss["known"]))
+			v.Detail = fmt.Sprintf("load %d of the history: %s (reads %v)", i+1, why, ilog)
 		}
 	}
 	return v
